@@ -13,7 +13,11 @@ compared exactly with the model kernel on the decoded events; (iv) a bad-header
 chunk (wrong magic, wrong version, legacy version 215) at every position of
 lists of 1..4 chunks for all five entry points: exception class and weights =
 learning the prefix only; (v) thorough: 70000 x 70000 sparse memmap, flat
-index > 2^32.
+index > 2^32; (vi) the Widrow-Hoff entry points (own copies of the buffer growth
+and of the index arithmetic): events with 1025..1200 outcome ids, alone and
+behind an event with 1250..1400 cue ids in the same chunk; one matrix with more
+than 2^32 cells per entry point (b2r: weights and outcome table, r2b: cue
+table, r2r: both tables; sparse backing files).
 """
 import itertools
 
@@ -42,10 +46,12 @@ def run(rep, pool, driver, tier):
     _write_read(rep, pool, driver, r, quick)
     _kernels(rep, pool, driver, r, quick)
     _kernels_wh(rep, pool, driver, r, quick)
+    _kernels_wh_wide(rep, pool, driver, quick)
     _bad_header(rep, pool, driver, r, quick)
     # > 2^32 cells (sparse backing file): cheap, because the kernels only touch the requested rows;
     # also in the quick tier (seeded change C06_b: 32-bit multiply in the flat index)
     _sparse(rep, pool, driver, r)
+    _sparse_wh(rep, pool, driver)
 
 
 def _write_read(rep, pool, driver, r, quick):
@@ -220,27 +226,133 @@ def _kernels_wh(rep, pool, driver, r, quick):
             reqs.append(q)
     impls = pool.map(tasks)
     models = driver.ask(reqs)
-    for t, impl, model in zip(tasks, impls, models):
+    _judge_wh(rep, tasks, impls, models, 'kernel_entry_points_wh')
+
+
+def _judge_wh(rep, tasks, impls, models, stream, side=None, pool=None, driver=None):
+    for n, (t, impl, model) in enumerate(zip(tasks, impls, models)):
         rep.case({'entry': t['entry'], 'shape': t['shape'], 'chunks': [c[:64] for c in t['chunks']], 'cv': t['cue_vectors'][:3]},
-                 nontrivial=True, stream='kernel_entry_points_wh')
+                 nontrivial=True, stream=stream)
         rep.count('entry:' + t['entry'])
-        exact = model['bits'] <= 53
-        prob = None
-        if 'err' in impl:
-            prob = 'entry point raised %s: %s' % (impl['err'], impl.get('msg'))
-        else:
-            mc = {k: frac(v) for k, v in model['cells']}
-            ic = {k: frac(v) for k, v in impl['cells']}
-            for k in set(mc) | set(ic):
-                a, b = ic.get(k, Fraction(0)), mc.get(k, Fraction(0))
-                ok = (a == b) if exact else abs(a - b) <= Fraction(1, 2 ** 30) * max(1, abs(b))
-                if not ok:
-                    prob = 'flat cell %d: kernel %s, model %s' % (k, float(a), float(b))
-                    break
-        if prob:
+        prob = _diff_wh(impl, model)
+        if prob and side is not None:
+            # shrink on the event lists the chunks were encoded from
+            q, ce = side[n]
+
+            def fails(ce2):
+                ch2 = _chunks_for(driver, ce2)
+                return _diff_wh(pool.map([dict(t, chunks=ch2)])[0], driver.ask([dict(q, chunks=ch2)])[0]) is not None
+            small, steps = _shrink_chunk_events(ce, fails)
+            ch2 = _chunks_for(driver, small)
+            impl2, model2 = pool.map([dict(t, chunks=ch2)])[0], driver.ask([dict(q, chunks=ch2)])[0]
+            prob2 = _diff_wh(impl2, model2)
+            if prob2 is None:
+                small, prob2, impl2, model2 = ce, prob, impl, model
+            rep.violation({'what': prob2, 'input': dict({k: v for k, v in t.items() if k not in ('cue_vectors', 'outcome_vectors', 'chunks')},
+                                                        ids_per_event=[[[len(c), len(o)] for c, o in es] for es in small],
+                                                        chunks=[c if len(c) <= 400 else c[:400] + '...' for c in ch2]),
+                           'observed': impl2.get('cells', impl2)[:8] if 'cells' in impl2 else impl2, 'expected': model2['cells'][:8],
+                           'shrink_steps': steps, 'shrunk_from_ids_per_event': [[[len(c), len(o)] for c, o in es] for es in ce],
+                           'theorem_or_stream': 'C06 kernel_decode_encode + kernel_buffer_never_overrun + C08 wh*_eq_spec: %s on model-written chunks (%s)' % (t['entry'], stream)})
+        elif prob:
             rep.violation({'what': prob, 'input': {k: v for k, v in t.items() if k not in ('cue_vectors', 'outcome_vectors')},
                            'observed': impl.get('cells', impl)[:8] if 'cells' in impl else impl, 'expected': model['cells'][:8],
-                           'theorem_or_stream': 'C06 kernel_decode_encode + C08 wh*_eq_spec: %s on model-written chunks' % t['entry']})
+                           'theorem_or_stream': 'C06 kernel_decode_encode + C08 wh*_eq_spec: %s on model-written chunks (%s)' % (t['entry'], stream)})
+
+
+def _diff_wh(impl, model):
+    exact = model['bits'] <= 53
+    if 'err' in impl:
+        return 'entry point raised %s: %s' % (impl['err'], impl.get('msg'))
+    mc = {k: frac(v) for k, v in model['cells']}
+    ic = {k: frac(v) for k, v in impl['cells']}
+    for k in set(mc) | set(ic):
+        a, b = ic.get(k, Fraction(0)), mc.get(k, Fraction(0))
+        ok = (a == b) if exact else abs(a - b) <= Fraction(1, 2 ** 30) * max(1, abs(b))
+        if not ok:
+            return 'flat cell %d: kernel %s, model %s' % (k, float(a), float(b))
+    return None
+
+
+def _shrink_chunk_events(ce, fails, budget=24):
+    """greedy: drop whole chunks, drop events, cut wide id lists down to 1025 / 1 ids"""
+    cur, steps = [list(es) for es in ce], 0
+    for i in reversed(range(len(cur))):
+        if len(cur) > 1 and steps < budget:
+            c = cur[:i] + cur[i + 1:]
+            steps += 1
+            if fails(c):
+                cur = c
+    for i in range(len(cur)):
+        for j in reversed(range(len(cur[i]))):
+            if len(cur[i]) > 1 and steps < budget:
+                c = cur[:i] + [cur[i][:j] + cur[i][j + 1:]] + cur[i + 1:]
+                steps += 1
+                if fails(c):
+                    cur = c
+    for i in range(len(cur)):
+        for j in range(len(cur[i])):
+            for side in (0, 1):
+                for keep in (1, 1025):
+                    if len(cur[i][j][side]) > keep and steps < budget:
+                        e = [list(cur[i][j][0]), list(cur[i][j][1])]
+                        e[side] = e[side][:keep]
+                        c = cur[:i] + [cur[i][:j] + [e] + cur[i][j + 1:]] + cur[i + 1:]
+                        steps += 1
+                        if fails(c):
+                            cur = c
+                            break
+    return cur, steps
+
+
+def _kernels_wh_wide(rep, pool, driver, quick):
+    """the Widrow-Hoff entry points have their OWN copies of the buffer-growth code (ndl_parallel.pyx
+    learn_inplace_{binary_to_real,real_to_real,real_to_binary}_ptr): events with more than 1024 OUTCOME ids
+    (repeated ids from range(n_outs): every kernel takes any number of outcomes per event), alone and in the
+    same chunk behind an event with even more cue ids (a growth test that looks at the wrong buffer size)."""
+    r = rng('C06/wh_wide')
+    tasks, reqs, side = [], [], []
+    for i in range(4 if quick else 40):
+        mode = 'outcomes' if i % 2 == 0 else 'both'
+        n_outs = r.randint(1, 4)
+        n_cd, n_od = r.randint(1, 3), r.randint(1, 4)
+        n_cues = r.randint(1, 5) if mode == 'outcomes' else 1400
+        small_c = lambda: [r.randrange(n_cues) for _ in range(r.randint(0, min(n_cues, 4)))]   # noqa
+        small_o = lambda: [r.randrange(n_outs) for _ in range(r.randint(0, 3))]                # noqa
+        wide_o = lambda: [r.randrange(n_outs) for _ in range(r.randint(1025, 1200))]           # noqa
+        chunk_events = []
+        for k in range(r.randint(1, 3)):
+            es = []
+            if mode == 'both' and k == 0:
+                # more cue ids than the next event has outcome ids, both above the initial capacity 1024
+                es.append([r.sample(range(n_cues), r.randint(1250, n_cues)), small_o()])
+                es.append([small_c() if r.random() < 0.5 else r.sample(range(n_cues), r.randint(1025, 1100)), wide_o()])
+            for _ in range(r.randint(1, 2)):
+                es.append([small_c(), wide_o() if r.random() < 0.6 else small_o()])
+            if mode == 'outcomes' and k == 0 and not any(len(e[1]) > 1024 for e in es):
+                es.append([small_c(), wide_o()])
+            r.shuffle(es) if mode == 'outcomes' else None
+            chunk_events.append(es)
+        chunks = _chunks_for(driver, chunk_events)
+        p = dict(gen.params(r), eta=r.choice(['1/2', '1/4', '1/8']))
+        cv = [['%d/%d' % (r.randint(-2, 2), r.choice([1, 2])) for _ in range(n_cd)] for _ in range(n_cues)]
+        ov = [['%d/%d' % (r.randint(-2, 2), r.choice([1, 2])) for _ in range(n_od)] for _ in range(n_outs)]
+        rep.count('wh_wide_mode:' + mode)
+        rep.count('wh_wide_events_gt_1024_outcomes', sum(1 for es in chunk_events for e in es if len(e[1]) > 1024))
+        rep.count('wh_wide_events_gt_1024_cues', sum(1 for es in chunk_events for e in es if len(e[0]) > 1024))
+        for entry in ('omp_b2r', 'omp_r2b', 'omp_r2r'):
+            cvx = [row[:1] for row in cv] if mode == 'both' and entry != 'omp_b2r' else cv
+            shape = {'omp_b2r': [n_od, n_cues], 'omp_r2b': [n_outs, len(cvx[0])], 'omp_r2r': [n_od, len(cvx[0])]}[entry]
+            ch, nj = r.randint(1, shape[0] + 1), r.choice([1, 2, 5])
+            tasks.append(dict(p, op='kernel', entry=entry, chunks=chunks, shape=shape, chunk=ch, n_jobs=nj,
+                              cue_vectors=cvx, outcome_vectors=ov))
+            reqs.append(dict(p, op='kernel_wh', entry=entry, chunks=chunks, n_rows=shape[0], n_cols=shape[1], chunk=ch,
+                             n_out_dims=n_od, cue_vectors=cvx, outcome_vectors=ov))
+            rep.count('wh_wide_entry:%s:%s' % (entry, mode))
+            side.append((reqs[-1], chunk_events))
+    impls = pool.map(tasks)
+    models = driver.ask(reqs)
+    _judge_wh(rep, tasks, impls, models, 'kernel_entry_points_wh_wide_outcomes', side=side, pool=pool, driver=driver)
 
 
 def _corrupt(hexs, kind):
@@ -338,3 +450,61 @@ def _sparse(rep, pool, driver, r):
         else:
             rep.sample({'sparse_entry': entry, 'max_flat_index': max(want), 'cells': len(want)})
             rep.count('sparse_cells_checked', len(want))
+
+
+def _sparse_wh(rep, pool, driver):
+    """one matrix with more than 2^32 cells per Widrow-Hoff entry point (each kernel has its own copy of the 64-bit
+    index arithmetic).  omp_b2r: the weight matrix 3 x (2^31+11) and the outcome-vector table (2^31+7) x 3;
+    omp_r2b: the cue-vector table (2^31+11) x 3; omp_r2r: both tables.  The weight matrices of r2b / r2r are
+    updated densely by every event (all n_cue_vector_dimensions columns of all rows), so a weight matrix with
+    more than 2^32 cells is out of reach for them; their flat indices beyond 2^32 are those into the tables."""
+    r = rng('C06/sparse_wh')
+    n_c, n_o = 2 ** 31 + 11, 2 ** 31 + 7
+    cues = [n_c - 1, n_c - 3, 2 ** 31, 1431655766, 65537, 4097]       # 3 * 1431655766 = 2^32 + 2
+    outs_big = [n_o - 1, n_o - 2, 1431655766, 5]
+    for entry in ('omp_b2r', 'omp_r2b', 'omp_r2r'):
+        binary_out = entry == 'omp_r2b'
+        outs = [0, 1, 2] if binary_out else outs_big
+        es = []
+        for _ in range(5):
+            es.append([r.sample(cues, r.randint(1, 3)), r.sample(outs, r.randint(0, 2))])
+        es[0] = [[cues[0], cues[1]], [outs[0]]]
+        es[1] = [[cues[2], cues[3]], [outs[2], outs[1]]]
+        p = dict(gen.params(r), eta=r.choice(['1/2', '1/4']))
+        cv = [[r.choice(['-1', '-1/2', '1/2', '1', '3/2']) for _ in range(3)] for _ in cues]
+        ov = [[r.choice(['-1', '-1/2', '1/2', '1', '3/2']) for _ in range(3)] for _ in outs_big]
+        chunks = _chunks_for(driver, [es[:2], es[2:]])
+        t = dict(p, op='sparse_big_wh', entry=entry, chunks=chunks, chunk=2, n_jobs=2, n_cd=3, n_od=3, n_rows=3,
+                 n_cols=n_c, n_cue_rows=n_c, n_out_rows=n_o, probe_cols=cues,
+                 cue_rows=[[c, row] for c, row in zip(cues, cv)], out_rows=[[o, row] for o, row in zip(outs_big, ov)], _timeout=600)
+        impl = pool.map([t], timeout=600)[0]
+        # the model works on the compacted tables (renaming equivariance, C13)
+        cmap = {c: i for i, c in enumerate(cues)}
+        omap = {o: i for i, o in enumerate(outs)}
+        es2 = [[[cmap[c] for c in cs], [omap[o] for o in os_]] for cs, os_ in es]
+        chunks2 = _chunks_for(driver, [es2[:2], es2[2:]])
+        n_cols = len(cues) if entry == 'omp_b2r' else 3
+        model = driver.ask([dict(p, op='kernel_wh', entry=entry, chunks=chunks2, n_rows=3, n_cols=n_cols, chunk=2, n_out_dims=3,
+                                 cue_vectors=cv, outcome_vectors=ov)])[0]
+        rep.case({'sparse_wh': entry, 'events': es}, nontrivial=True, stream='sparse_wh_gt_2^32_cells')
+        want = {}
+        for k, v in model['cells']:
+            row, col = k // n_cols, k % n_cols
+            want[(row, cues[col] if entry == 'omp_b2r' else col)] = frac(v)
+        got = {(o, c): frac(v) for (o, c), v in impl.get('cells', [])}
+        exact = model['bits'] <= 53
+        bad = [k for k in set(want) | set(got)
+               if not ((got.get(k, Fraction(0)) == want.get(k, Fraction(0))) if exact else
+                       abs(got.get(k, Fraction(0)) - want.get(k, Fraction(0))) <= Fraction(1, 2 ** 30) * max(1, abs(want.get(k, Fraction(0)))))]
+        if 'err' in impl or bad or impl.get('low_touched'):
+            rep.violation({'what': '%s with a matrix of more than 2^32 cells (%r cells): %s' % (
+                entry, impl.get('table_cells'), impl.get('err') or ('low cells touched' if not bad else 'weight[%r] kernel %s, model %s' % (
+                    list(bad[0]), float(got.get(bad[0], 0)), float(want.get(bad[0], 0))))),
+                'input': {k: v for k, v in t.items() if k != 'chunks'}, 'events': es,
+                'observed': sorted([list(k), float(v)] for k, v in got.items())[:8], 'expected': sorted([list(k), float(v)] for k, v in want.items())[:8],
+                'theorem_or_stream': 'C06 flatIndex_exact (flat index > 2^32) for %s' % entry})
+        else:
+            rep.sample({'sparse_wh_entry': entry, 'table_cells': impl.get('table_cells'), 'cells': len(want)})
+            rep.count('sparse_wh_entry:' + entry)
+            rep.count('sparse_wh_cells_checked', len(want))
+            rep.count('sparse_wh_domain:' + ('exact' if exact else 'tolerance'))
